@@ -120,7 +120,8 @@ ApplyEffs(st, es) == IF es = <<>> THEN st ELSE ApplyEffs(ApplyEff(st, Head(es)),
 RECURSIVE RouterExec(_, _, _), WasmExec(_, _, _), ProcSubs(_, _, _, _, _), ExecSub(_, _, _), DoReply(_, _, _)
 
 (* BankKeeper::execute *)
-BankExec(x, sender, m, note) ==
+BankExec(x0, sender, m, note) ==
+    LET x == [x0 EXCEPT !.rlog = Append(@, [slot |-> "bank", sender |-> sender, payload |-> m.k])] IN
     IF m.k = "bank_send"
     THEN LET r == SendFromTo(x.st.bank, sender, m.to, m.coins) IN
          IF r.ok
@@ -269,7 +270,7 @@ RouterExec(x, sender, m) ==
     IF x.need THEN Err(x)
     ELSE CASE m.k \in {"bank_send", "bank_burn"} -> BankExec(x, sender, m, "msg")
            [] m.k = "mod" -> ModExec(x, sender, m)
-           [] OTHER -> WasmExec(x, sender, m)
+           [] OTHER -> WasmExec([x EXCEPT !.rlog = Append(@, [slot |-> "wasm", sender |-> sender, payload |-> m.k])], sender, m)
 
 (* WasmKeeper::sudo *)
 WasmSudo(x, c) ==
